@@ -7,9 +7,9 @@ ID = 'C19'
 COQ_TARGETS = ['Props/Properties_C19.vo']
 PROPS_FILES = ['Props/Properties_C19.v']
 SHRINK_FROM = 2
-THEOREMS = ['C19_tx', 'C19_tx_exact', 'C19_tx_checker', 'C19_tx_unrepaired_refuted', 'C19_rx_content', 'C19_rx_fail', 'C19_rx_unrepaired_refuted', 'C19_rx_readbin']
+THEOREMS = ['C19_tx', 'C19_tx_exact', 'C19_tx_checker', 'C19_tx_unrepaired_refuted', 'C19_rx_content', 'C19_rx_fail', 'C19_rx_unrepaired_refuted', 'C19_rx_parse', 'C19_rx_transactions', 'C19_rx_checker', 'C19_rxs_checker', 'C19_rx_readbin']
 ENGINES = [dict(name='bdat', c_sources=['bdat_h.c', 'bdat_rx.c', 'bdat_net.c'], extract='Extract/Extract_bdat.v', driver='bdat_driver.ml',
-                accepts=lambda c: c.startswith('aa ') or c.startswith('bb '))]
+                accepts=lambda c: c[:3] in ('aa ', 'bb ', 'bd '))]
 RULE = ('tx cases = (chunk size, message[, number of positive intermediate replies]) for the real send_bdat: every message of <= 5 '
         '(thorough: <= 8) octets over {a, CR, LF} x chunk sizes 16..21 (thorough 16..27); random messages of 0..400 (3000 for big chunk '
         'sizes) octets made of lines with CRLF / bare LF / bare CR / empty lines / CR runs, chunk sizes 16..64, 98..102, 998..1002, 1024, '
@@ -20,11 +20,16 @@ RULE = ('tx cases = (chunk size, message[, number of positive intermediate repli
         '2046, CR / CRLF planted at the buffer boundaries, 0-6 random chunk cuts or a cut next to a CR, LAST on the final / on an extra empty '
         'command / in the middle / absent, 0-2000 octets pre-buffered, read() results of 1..255 octets, and in a quarter of the cases one '
         'fault: queue_init fails, n-th queue write fails, n-th read fails, size limit, peer hangs up, extra pipelined octets. '
-        'non-trivial: tx = at least two BDAT commands were sent; rx = at least two commands succeeded and the envelope was sent; '
+        'session cases (bd) = scripts of 1-3 transactions for the same harness: MAIL/RCPT stand-in (optionally with a failing queue_init), '
+        'raw BDAT command lines through the dispatcher row and the real argument parser (every entry of a list of 27 malformed arguments, '
+        'leading zeros, mixed case, 2^32, 2^63, 2^64-1, 2^64, 506-octet lines), RSET in the middle of / between transactions, BDAT outside a '
+        'transaction, one fault per session in a fifth of them (n-th queue write fails with EPIPE/ENOSPC/EFBIG/EMSGSIZE/E2BIG/ENOMEM/EIO, n-th '
+        'read fails, size limit), short or over-long streams, pre-buffered octets, small read() results. '
+        'non-trivial: tx = at least two BDAT commands were sent; sessions = at least two transactions started and one envelope sent; rx = at least two commands succeeded and the envelope was sent; '
         'distinct by case text')
 TRUSTED_BASE = [
     'Coq 8.16.1 kernel (coqc; coqchk in thorough); vm_compute in the non-vacuity / refutation examples and two digit-count facts (ndigits 99, 159); no native_compute',
-    'axioms: none (Print Assumptions: Closed under the global context for all eight theorems)',
+    'axioms: none (Print Assumptions: Closed under the global context for all twelve theorems)',
     'translator tools/translators/bdat.py: regexes over qremote/qrbdat.c, lib/fmt.c, qsmtpd/data.c, lib/netio.c produce the constants in '
     'coq/Gen/GenBdat.v and GenBdatRx.v (reserve 12, margins, "BDAT ", " LAST\\r\\n", the LF-skip bound, buffer sizes) and check the statement '
     'shapes the models transcribe (a restructured function is reported as a broken tie)',
@@ -35,16 +40,21 @@ TRUSTED_BASE = [
     'INCOMING_CHUNK_SIZE=1), lib/netio.c; stubbed: netnwrite/checkreply/log_write/net_conn_shutdown (tx), queue_init/queue_envelope/'
     'queue_result/queue_reset/freedata/tarpit and the dispatcher rule for comstate (rx); read()/write()/writev()/poll() redirected; '
     'malloc filled with 0xEE; msgdata placed against a PROT_NONE page; gcc 12 -O1 ASan+UBSan vs. production build',
-    'the boolean checker spec_ok_C19_rx (used only to look for a failing input on C outputs) is a direct transcription of rx_delivered / '
-    'no_env_after_fail but not proved equivalent to them; spec_ok_C19_tx is proved to decide tx_ok (C19_tx_checker)',
+    'all three boolean checkers are proved to decide their Prop statements (C19_tx_checker, C19_rx_checker, C19_rxs_checker); the cut of a '
+    'session into transactions (align / segments in Spec/BdatRxSpec.v) is shared by statement and checker and is read, not proved',
+    'harness stand-ins re-implemented from the C and pinned by the translator (shape + constants): the BDAT row of smtploop() (mask 0x0840, '
+    'state -1, flags 5, 510-octet limit), smtp_rset(), and MAIL FROM + RCPT TO reduced to comstate = 0x0040 with one recipient',
 ]
 ASSUMPTIONS = [
     'tx: chunk size >= 16 (the minimum that fits "BDAT n LAST CRLF" plus one payload octet; smaller values of control/chunksizeremote make '
     'send_bdat loop forever or overflow its buffer - outside the property, noted in reports/C19.md)',
     'tx: malloc(chunksize) succeeds (otherwise send_bdat falls back to send_data, C06/C07); netnwrite() transmits its buffer unchanged; '
     'checkreply() returns the reply code of the server',
-    'rx: the "BDAT n [LAST]" argument has been parsed (n, LAST) - strtoull/strcasecmp are not modelled; BDAT commands of one transaction '
-    'follow each other (comstate 0x0800); between commands the line reader leaves any amount (0..1001) of the following octets buffered',
+    'rx: command lines contain no NUL (smtploop() refuses such lines in line_valid() before the dispatcher; modelled in Model/Session.v); '
+    'strtoull/strcasecmp are modelled (digits with overflow flag, C-locale case folding), not verified; between commands the line reader '
+    'leaves any amount (0..1001) of the following octets buffered',
+    'rx: C19_rx_transactions assumes the client lets MAIL be accepted (RSET after a failed transaction: comstate 0x0010) and that no injected '
+    'fault is still ahead; what happened before is arbitrary',
     'rx: C19_rx_content assumes no fault: queue_init and write_received succeed, every write() on the queue descriptor is complete, no read '
     'error, the peer sends all announced octets, the total is within maxbytes, net_writen succeeds; C19_rx_fail assumes nothing about faults',
     'rx: read buffer sizeof(inbuf) >= 2 (INCOMING_CHUNK_SIZE >= 1 gives >= 1024); queue_envelope/queue_result are stand-ins that succeed',
@@ -217,12 +227,89 @@ def gen_rx(rng, tier):
     return out
 
 
+# ---------------------------------------------------------------- sessions: argument parsing, several transactions
+def _rec(op, pre, pl=b''):
+    return '%02x%04x%04x' % (op, pre, len(pl)) + pl.hex()
+
+
+BAD_ARGS = [b'', b' ', b' x', b' -1', b' +1', b'  1', b' 1 ', b' 1  LAST', b' 1 LAST ', b' 1 LAS', b' 1 LASTX', b' 1\tLAST', b' 1x',
+            b' 0x10', b' 18446744073709551616', b' 99999999999999999999999', b' 1,2', b' 1 LAST LAST', b' LAST', b' 1 last\r', b'X 1',
+            b'\t1', b' 1 L', b' 18446744073709551615 LAST x', b' \xb1', b' 1 ' + b'LAST'[::-1], b' 0' * 300]
+
+
+def _case_mix(rng, w):
+    return bytes(c ^ 32 if 65 <= (c & ~32) <= 90 and rng.random() < 0.5 else c for c in w)
+
+
+def _bdat_line(rng, n, last):
+    num = str(n).encode()
+    if rng.random() < 0.15:
+        num = b'0' * rng.randrange(1, 4) + num
+    l = _case_mix(rng, b'BDAT') + b' ' + num
+    if last:
+        l += b' ' + _case_mix(rng, b'LAST')
+    return l
+
+
+def gen_rxs(rng, tier):
+    out = []
+    nofault = 'ffff00ff0000ffff'
+    # argument parsing: one transaction, one odd line, then (if it was refused) the same data regularly
+    for bad in BAD_ARGS + [b' 0', b' 0 LAST', b' 5', b' 5 last', b' 005 LaSt', b' 18446744073709551615', b' 4294967296', b' 9223372036854775808 LAST']:
+        for nm in (b'BDAT', b'bdat'):
+            recs = [_rec(3, 0), _rec(1, 0, nm + bad), _rec(1, 0, b'BDAT 5 LAST')]
+            out.append('bd %s %s %s -' % (nofault, ''.join(recs), (b'ab\r\ncXY').hex()))
+    out.append('bd %s %s %s -' % (nofault, ''.join([_rec(3, 0), _rec(1, 0, b'BDAT ' + b'0' * 505), _rec(1, 0, b'BDAT ' + b'0' * 506), _rec(1, 0, b'BDAT 0 LAST')]), '-'))
+    n = 1500 if tier == 'quick' else 15000
+    for i in range(n):
+        recs, stream = [], bytearray()
+        ntx = rng.choice([1, 2, 2, 3])
+        q, wf, we, rf, mb = 0, 0xffff, 0, 0xff, 0xffff
+        f = rng.random()
+        if f < 0.12: wf, we = rng.randrange(0, 10), rng.randrange(0, 7)
+        elif f < 0.16: rf = rng.randrange(0, 8)
+        elif f < 0.22: mb = rng.randrange(0, 40)
+        state_ok = True            # the model of the client: it sends RSET after a transaction it thinks failed
+        for t in range(ntx):
+            ln = rng.choice([0, 1, 2, 3, 5, 8, 20, 60]) if rng.random() < 0.9 else rng.choice([1022, 1023, 1024, 1100, 2050])
+            data = bytearray(_rx_data(rng, ln))
+            if ln and rng.random() < 0.3: data[-1] = 13
+            if ln and rng.random() < 0.2: data[0] = 10
+            sizes = _partition(rng, ln, rng.choice([0, 1, 1, 2, 3]))
+            qf = 1 if rng.random() < 0.06 else 0
+            recs.append(_rec(3, rng.choice([0, 0, 1, 5]), bytes([qf])))
+            shape = rng.random()
+            cmds = [(sz, False) for sz in sizes]
+            if shape < 0.6: cmds[-1] = (cmds[-1][0], True)
+            elif shape < 0.8: cmds.append((0, True))
+            # else: no LAST: the transaction is abandoned
+            for j, (sz, last) in enumerate(cmds):
+                if rng.random() < 0.12:
+                    recs.append(_rec(1, 0, _case_mix(rng, b'BDAT') + rng.choice(BAD_ARGS[:-1])))
+                recs.append(_rec(1, rng.choice([0, 0, 0, 1, 2, 1001]), _bdat_line(rng, sz, last)))
+                if rng.random() < 0.05:
+                    recs.append(_rec(2, 0)); break                      # RSET in the middle
+            stream += data
+            r = rng.random()
+            if r < 0.45 or shape >= 0.8: recs.append(_rec(2, rng.choice([0, 0, 3])))      # RSET between transactions
+            elif r < 0.5: recs.append(_rec(1, 0, b'BDAT 1'))                             # BDAT without a transaction: 503
+        if rng.random() < 0.1: stream = stream[:rng.randrange(0, len(stream) + 1)]
+        elif rng.random() < 0.1: stream += _rx_data(rng, rng.randrange(1, 10))
+        cuts = b''
+        if rng.random() < 0.3:
+            cuts = bytes(rng.choice([1, 1, 2, 3, 5, 255]) for _ in range(rng.randrange(1, 40)))
+        out.append('bd %04x%02x%02x%08x %s %s %s' % (wf, we, rf, mb, ''.join(recs), R.hx(bytes(stream)), R.hx(cuts)))
+    return out
+
+
 def gen_cases(engine, rng, tier):
-    return gen_tx(rng, tier) + gen_rx(rng, tier)
+    return gen_tx(rng, tier) + gen_rx(rng, tier) + gen_rxs(rng, tier)
 
 
 def nontrivial(case, c_out):
     f = c_out.split()
+    if case.startswith('bd '):
+        return f[:1] == ['OK'] and sum(1 for t in f if t.startswith('B') and t[1:].isdigit()) >= 2 and any(t.startswith('E') and t[1:].isdigit() for t in f)
     if case.startswith('bb '):
         return f[:1] == ['OK'] and f.count('C0') >= 2 and any(t.startswith('E') for t in f)
     return len(f) >= 5 and f[0] == 'OK'
@@ -233,6 +320,13 @@ def distribution(results):
     d.update({'rx_delivered': 0, 'rx_failed': 0, 'rx_died': 0, 'rx_no_last': 0, 'rx_multi_buffer': 0, 'rx_cr_held_at_end': 0})
     for r in results:
         f = r['c'].split()
+        if r['case'].startswith('bd '):
+            d.setdefault('rxs_sessions', 0); d['rxs_sessions'] += 1
+            for k, pred in (('rxs_envelopes', lambda t: t.startswith('E') and t[1:].isdigit()), ('rxs_transactions', lambda t: t.startswith('B') and t[1:].isdigit()),
+                            ('rxs_refused_syntax', lambda t: t in ('CEINVAL', 'CE2BIG')), ('rxs_failed_cmds', lambda t: t.startswith('C') and t not in ('C0', 'CEINVAL', 'CE2BIG', 'C503')),
+                            ('rxs_rset', lambda t: t == 'RSET'), ('rxs_503', lambda t: t == 'C503')):
+                d[k] = d.get(k, 0) + sum(1 for t in f if pred(t))
+            continue
         if r['case'].startswith('bb '):
             if not f or f[0] != 'OK':
                 d['crash_or_other'] += 1
